@@ -44,6 +44,7 @@ def plan(tier, seed):
                     if not T and p == 1 and wb == 1: continue
                     q("russ%d-n%d-w%d-p%d" % (v, n, wb, p), {"VARIANT": v, "NT": n, "NB": wb, "TPAT": p, "VSEED": 5 + seed,
                        "T_SYM_R0": 0, "T_SYM_R1": 0, "T_SYM_W0": 0, "T_SYM_W1": 0}, backend="z3", fallback="cadical", timeout=1500, mem_gb=8)
+        q("russ%d-n130-w70-p5" % v, {"VARIANT": v, "NT": 130, "NB": 70, "TPAT": 5, "T_SYM_R0": 0, "T_SYM_R1": 0, "T_SYM_W0": 0, "T_SYM_W1": 0}, backend="z3", fallback="cadical", timeout=1500, mem_gb=8)
         # T symbolic in a band of rows x one word, B concrete
         for n in (65, 70):
             q("russ%d-n%d-w3-Tband" % (v, n), {"VARIANT": v, "NT": n, "NB": 3, "VSEED": 7 + seed,
